@@ -86,7 +86,7 @@ Definition run_schema (s : sx) : sx :=
                let fits := (goval_depth data * S R + urank dfs Kr sch <? fuel)%nat in
                let inside (an aa : bool) :=
                  jd_b f_finite an aa (S (goval_depth data)) data &&
-                 (cleanr_b f_finite an aa orc dfs K n sch || (fits && cleang_b f_finite an aa orc dfs Kr R fuel sch data)) in
+                 (cleanr_b f_finite an aa orc dfs K n sch || (fits && cleang_b f_finite an orc dfs Kr R fuel sch data)) in
                ofBool (inside false false || inside false true || inside true false || inside true true));
               (* is the case inside the class on which a verdict is proved to be returned with this fuel
                  (Schema/PipelineTermRec.v, decided by PipelineTermDec.v)? *)
